@@ -282,6 +282,16 @@ func c05Reference(q c05Query, lines []string) (rows [][]string, ok bool) {
 	if q.Format != "generickv" || q.Set != "" {
 		return nil, false
 	}
+	// built-in variables other than $line ($hostname, $server, ...) depend on where a line was read, which a
+	// central evaluation over the bare lines does not know
+	for _, f := range append(append([]string{}, q.Select...), strings.Split(q.Group, ",")...) {
+		if i := strings.Index(f, "("); i >= 0 {
+			f = f[i+1 : len(f)-1]
+		}
+		if strings.HasPrefix(f, "$") && f != "$line" {
+			return nil, false
+		}
+	}
 	type agg struct {
 		count   map[string]float64
 		sum     map[string]float64
